@@ -153,14 +153,19 @@ fn near_neutral(max1: bool) -> Vec<[f32; 3]> {
     let mut v = Vec::new();
     for &g in &[1.0f32, 0.999, 0.9, 0.5, 0.18, 0.02] {
         for k in 6..=23 {
-            let d = g * 2f32.powi(-k);
-            let up = if max1 && g + d > 1.0 { -d } else { d };
-            v.push([g + up, g, g + up]);
-            v.push([g - d, g, g]);
-            v.push([g, g + up, g - d]);
-            v.push([g, g, g + up]);
-            v.push([g + up, g, g - d * 0.5]);
-            v.push([g - d * 0.855, g, g]);
+            // quarter-octave steps: no band of relative width 20% between 2^-24 and 2^-6 is skipped
+            for (j, m) in [1.0f32, 1.19, 1.41, 1.68].into_iter().enumerate() {
+                let d = g * 2f32.powi(-k) * m;
+                let up = if max1 && g + d > 1.0 { -d } else { d };
+                v.push([g - d, g, g]);
+                v.push([g, g + up, g - d]);
+                match j {
+                    0 => v.push([g + up, g, g + up]),
+                    1 => v.push([g, g, g + up]),
+                    2 => v.push([g + up, g, g - d * 0.5]),
+                    _ => v.push([g, g - d, g]),
+                }
+            }
         }
     }
     v
